@@ -71,6 +71,8 @@ type coreSim struct {
 	modeSwitchRto [2]uint32 // rx_rto at that moment
 	adv       [2]uint32 // the peer's window as last advertised in a REGULAR datagram (tracked here, not read from the core)
 	advSet    [2]bool
+	rcvWndMax [2]uint32 // largest receive window configured so far
+	shrunk    [2]bool   // the application lowered its receive window below its backlog (profile shrinkWnd)
 }
 
 func (s *coreSim) logf(format string, a ...any) {
@@ -519,10 +521,15 @@ func (s *coreSim) monAfter(e int, where string) {
 	}
 	k := s.k[e]
 	s.rep.Monitors["window-bounds"]++
-	if k.rcv_queue.Len() > int(k.rcv_wnd) {
+	// a window lowered at run time (outside the property's "set before traffic starts") bounds
+	// what is admitted from then on; what already waits is bounded by the largest window so far
+	if k.rcv_wnd > s.rcvWndMax[e] {
+		s.rcvWndMax[e] = k.rcv_wnd
+	}
+	if k.rcv_queue.Len() > int(s.rcvWndMax[e]) {
 		s.violate("core-rcvqueue-over-window", fmt.Sprintf("after %s: %d in-order segments await the reader with rcv_wnd %d", where, k.rcv_queue.Len(), k.rcv_wnd))
 	}
-	if k.rcv_buf.Len() > int(k.rcv_wnd) {
+	if k.rcv_buf.Len() > int(s.rcvWndMax[e]) {
 		s.violate("core-rcvbuf-over-window", fmt.Sprintf("after %s: %d out-of-order segments held with rcv_wnd %d", where, k.rcv_buf.Len(), k.rcv_wnd))
 	}
 	if k.snd_buf.Len() > int(k.snd_wnd) {
